@@ -19,7 +19,7 @@ from trace import validate_traces
 
 
 def cases(ctx):
-    cfg = "SPECIFICATION CaseSpec\nCONSTANTS RecvDeadline = FALSE\n          Dribbles = 2\nINVARIANT Export\nCHECK_DEADLOCK FALSE\n"
+    cfg = "SPECIFICATION CaseSpec\nCONSTANTS RecvDeadline = FALSE\n          ArtimEveryLoop = TRUE\n          ServerHandshakeDeadline = FALSE\n          Dribbles = 2\nINVARIANT Export\nCHECK_DEADLOCK FALSE\n"
     open(f"{ctx.work}/Stall_cases.cfg", "w").write(cfg)
     r = must_ok(run_tlc("Stall", f"{ctx.work}/Stall_cases.cfg", workdir=ctx.work, workers=1, timeout=600))
     ctx.add_tlc(r)
@@ -32,8 +32,8 @@ def cases(ctx):
         if key not in seen:
             seen.add(key)
             out.append(dict(zip(("role", "phase", "cut", "style"), key)))
-    if len(out) != 48:
-        raise MachineryError(f"{len(out)} stall scenarios exported, expected 48")
+    if len(out) != 54:
+        raise MachineryError(f"{len(out)} stall scenarios exported, expected 54")
     return out
 
 
@@ -52,6 +52,10 @@ def run(ctx: Ctx) -> int:
     ctx.add_tlc(ra)
     if ra.violated != "C08_Ends":
         raise MachineryError(f"the as-found design (no read deadline) is not refuted by TLC: {ra.violated!r}")
+    rn = must_ok(run_tlc("Stall", "Stall_noartim.cfg", workdir=ctx.work, workers=4, timeout=900))
+    ctx.add_tlc(rn)
+    if rn.violated != "C08_Ends":
+        raise MachineryError(f"a provider that tests ARTIM only on idle loops is not refuted by TLC: {rn.violated!r}")
     ctx.cov["as_found_design_refuted_by"] = "C08_Ends (lasso: " + " -> ".join(l for l, _ in ra.trace[-5:]) + ")"
     from stall_lab import BOUND, run_case
 
@@ -90,4 +94,4 @@ def run(ctx: Ctx) -> int:
     ctx.sample(obs[0])
     ctx.assume("timeouts ACSE 0.6 s, DIMSE 0.6 s, network 0.8 s, connection 1 s; bound = their sum + 1.5 s", "loopback TCP, TCP_NODELAY; dribbled pieces 0.35 s apart",
                "one incomplete PDU per scenario (A-ASSOCIATE-RQ/AC, P-DATA-TF command / data set, A-RELEASE-RP)")
-    return ctx.finish(rule="all (role, phase, cut, style) of Stall.tla: 8 role/phase pairs x {boundary, header, body} x {silence, dribble}")
+    return ctx.finish(rule="all 54 (role, phase, cut, style) of Stall.tla: 8 role/phase pairs x {boundary, header, body} x {silence, dribble}, Sta13 x {silence, flood} and the TLS handshake, both roles")
